@@ -161,12 +161,26 @@ def run_call(case, method, kwargs):
 # ------------------------------------------------------------------ value specs -> python
 
 
+def _cls(pkg, name):
+    """a generated class by name: re-exported by the package, or (NoReimports) found in its modules"""
+    if hasattr(pkg, name):
+        return getattr(pkg, name)
+    import pkgutil
+
+    for m in pkgutil.iter_modules(pkg.__path__):
+        mod = importlib.import_module(f"{pkg.__name__}.{m.name}")
+        obj = vars(mod).get(name)
+        if isinstance(obj, type) and obj.__module__ == mod.__name__:
+            return obj
+    raise AttributeError(f"no class {name} in package {pkg.__name__}")
+
+
 def spec_to_python(pkg, spec):
     """Build the Python argument for a value specification from the generated package's own
     classes (enum members, input models by alias or by python field name)."""
     if isinstance(spec, dict) and "$e" in spec:
         ename, val = spec["$e"]
-        enum_cls = getattr(pkg, ename)
+        enum_cls = _cls(pkg, ename)
         return enum_cls(val)
     if isinstance(spec, dict) and "$money" in spec:
         return f"m#{spec['$money']}"
@@ -175,7 +189,7 @@ def spec_to_python(pkg, spec):
 
         return datetime.datetime.fromisoformat(spec["$dt"])
     if isinstance(spec, dict) and "$i" in spec:
-        cls = getattr(pkg, spec["$i"])
+        cls = _cls(pkg, spec["$i"])
         fields = {k: spec_to_python(pkg, v) for k, v in spec["f"].items()}
         if spec.get("by") == "name":
             by_name = {}
@@ -211,9 +225,18 @@ class Session:
             self.failure = {"clause": "import", "sig": type(exc).__name__, "msg": repr(exc)[:400]}
             return
         self.server = server_for(case, **(server_kw or {}))
-        self.transport = Transport(lambda body, req: (200, self.server.handle(body)[0]))
+        self.transport = Transport(self._respond)
         self.client = make_client(self.pkg, case, self.transport, **(client_kw or {}))
         self.ops = {o["name"]: o for o in case["ops"]}
+
+    forced_response = None  # when set, answered instead of executing (differential runs replay the reference's response)
+
+    def _respond(self, body, req):
+        if self.forced_response is not None:
+            self.server.calls.append({"body": body, "errors": None, "data": self.forced_response.get("data"), "forced": True,
+                                      "rtypes": {}, "ftypes": {}, "args": {}, "objects": 0})
+            return 200, self.forced_response
+        return 200, self.server.handle(body)[0]
 
     def call(self, call):
         """Returns dict(op, method, kwargs, value, exc, rec, request, problem)."""
